@@ -14,7 +14,7 @@ RULE = ("for each mixed tree (0/1/multi-block files, sparse file, nested dirs, l
         "(thorough: plus seeded pairs and pct schedules). Oracle: exit != 0 is fine; exit 0 requires the full snapshot "
         "comparison (kinds, bytes, link text, modes, mtimes, backup content) to pass, and an injected fsync failure must "
         "not exit 0; entries nothing maps onto (earlier backups among them) must be unchanged. xattr/ownership calls are tolerated by "
-        "the statement and not injected. A second family needs no injection: the step fails by itself because something of the wrong "
+        "the statement: they are failed too, and exit 0 is then accepted, but everything else about the files (bytes, mode, mtime) is still demanded. A second family needs no injection: the step fails by itself because something of the wrong "
         "kind is in the way (file / link / fifo / socket where a directory belongs, directory where a file or link belongs), an entry "
         "is immutable (chattr +i), the run is unprivileged (setpriv to uid 65534: unreadable file, unlistable directory, read-only or "
         "unsearchable destination directory, unwritable destination file), or the destination is a tiny tmpfs of its own that fills "
@@ -293,7 +293,9 @@ def expand_case(case):
         base = core.run_xcp(sb, case["args"], {"log_mode": "full", "rules": always})
         if not base.exit0:
             return {"inconc": ["baseline-failed"], "trace": "baseline failed: %s %s" % (case["args"], base.stderr[-300:])}
-        allsites = [s_ for s_ in sites.enumerate_sites(base.events, root) if not (case["variant"] == 9 and s_["sys"] == "copy_file_range")]
+        # (calls whose failure the statement tolerates -- xattr and ownership calls -- are failed too: the warning is fine, but
+        #  everything *else* about the file must still be right on exit 0)
+        allsites = [s_ for s_ in sites.enumerate_sites(base.events, root, include_tolerated=True) if not (case["variant"] == 9 and s_["sys"] == "copy_file_range") and s_["sys"] != "close"]
         out = []
         r = random.Random(case["sseed"])
         for s in allsites:
@@ -325,7 +327,7 @@ def obj_class(path, root, pre, post):
     return "%s-%s" % (side, rec["k"] if rec else "new")
 
 
-def judge(case, root, pre, post, run, res, prop_tag=""):
+def judge(case, root, pre, post, run, res, prop_tag="", tolerated=None):
     """Shared exit-0 oracle (also used by C07's fault family)."""
     v = case.get("variant")
     if v == 7:
@@ -355,7 +357,9 @@ def judge(case, root, pre, post, run, res, prop_tag=""):
     bad = model.check_mirror(pre, post, mapping)
     # a correct destination also lacks what the ignore file excludes (a filter that silently switched itself off is a failed step)
     bad += [("excluded-entry-copied", "%s is excluded by src/.gitignore but exists in the destination" % m["dst"]) for m in excluded if m["dst"] in post]
-    bad += model.check_meta(pre, post, mapping)
+    # a failed xattr call may cost xattrs (of that file: which one is not tracked, so xattrs are then not compared at all);
+    # permissions, timestamps and contents are demanded regardless
+    bad += model.check_meta(pre, post, mapping, xattrs=tolerated not in ("flistxattr", "fgetxattr", "fsetxattr"))
     bad += [f for f in model.check_nodes(pre, post, mapping) if f[0] == "rdev" and False]
     # numbered / auto backups: the old content must still exist
     if "--backup" in case["args"]:
@@ -411,7 +415,9 @@ def run_case(case):
         res["counters"]["sys:" + s0["sys"]] = 1
         if run.exit0:
             res["counters"]["exit0-after-fault"] = 1
-            bad = judge(case, root, pre, post, run, res)
+            bad = judge(case, root, pre, post, run, res, tolerated=s0["sys"] if s0["sys"] in sites.TOLERATED else None)
+            if s0["sys"] in sites.TOLERATED:
+                res["counters"]["tolerated-call-failed-exit0"] = 1
             if s0["sys"] in ("fsync", "fdatasync"):
                 bad.append(("fsync-ignored", "requested fsync of %s failed with errno %d" % (s0["path"], f0["errno"])))
             for frag, msg in bad:
